@@ -1,7 +1,9 @@
 pub mod c01;
+pub mod c04;
 pub mod c05;
 pub mod c05e;
 pub mod c06;
+pub mod c07;
 pub mod c09;
 pub mod c09e;
 pub mod c10;
@@ -30,8 +32,10 @@ pub fn level_of(prop: &str) -> &'static str {
 pub fn dispatch(prop: &str, ctx: &Ctx, rep: &mut Report) -> bool {
     match prop {
         "C01" => c01::run(ctx, rep),
+        "C04" => c04::run(ctx, rep),
         "C05" => c05::run(ctx, rep),
         "C06" => c06::run(ctx, rep),
+        "C07" => c07::run(ctx, rep),
         "C09" => c09::run(ctx, rep),
         "C10" => c10::run(ctx, rep),
         "C12" => c12::run(ctx, rep),
